@@ -878,22 +878,31 @@ class World:
         bent, face = self._bc_face(a)
         fn = a["fn"]
         shape = face.c.shape
+        want = None      # documented (a, b, c), defined up to a non-zero factor per face
         try:
             if fn == "defaultNoFlux":
+                want = (1.0, 0.0, 0.0)
                 face.defaultNoFlux()
             elif fn == "fixedValue":
                 if a.get("wrong_shape"):
                     face.fixedValue(np.full(tuple(s + 1 for s in shape) + (2,), 1.5))
                 else:
-                    face.fixedValue(self._val(a["val"], shape))
+                    val = self._val(a["val"], shape)
+                    want = (0.0, 1.0, np.array(val, copy=True))
+                    face.fixedValue(val)
             elif fn == "fixedGradient":
+                val = self._val(a["val"], shape)
+                want = (1.0, 0.0, np.array(val, copy=True))
                 if "scale" in a:
-                    face.fixedGradient(self._val(a["val"], shape), float(a["scale"]))
+                    face.fixedGradient(val, float(a["scale"]))
+                    self.probes["util:fixedGradient-scale_coeffs"] += 1
                 else:
-                    face.fixedGradient(self._val(a["val"], shape))
+                    face.fixedGradient(val)
             elif fn == "newtonCooling":
-                face.newtonCooling(float(a["kk"]), float(a["h"]), float(a["T"]),
-                                   reverse_direction=bool(a.get("rev")))
+                k_, h_, T_ = float(a["kk"]), float(a["h"]), float(a["T"])
+                he = -h_ if a.get("rev") else h_
+                want = (k_, he, he * T_)
+                face.newtonCooling(k_, h_, T_, reverse_direction=bool(a.get("rev")))
             else:
                 raise Skip("unknown util")
         except Skip:
@@ -902,7 +911,25 @@ class World:
             ctx.status = "raised:" + type(ex).__name__
             ctx.fault = "partial_utility"
             self.stats["fault-fired:partial_utility"] += 1
+            want = None
         self._mark_bc_edit(bent, fn, ctx)
+        if want is not None and "I4" in self.inv:
+            # the condition now configured on this side is the documented one; any
+            # non-zero rescaling of (a, b, c) is the same condition (C03)
+            self.oracle_runs["I4-utility"] += 1
+            got = [np.asarray(getattr(face, c_), dtype=float).reshape(-1) for c_ in "abc"]
+            ref = [np.broadcast_to(np.asarray(w_, dtype=float).reshape(-1) if np.ndim(w_)
+                                   else float(w_), got[0].shape) for w_ in want]
+            G = np.stack(got, axis=1)
+            Rf = np.stack(ref, axis=1)
+            # parallel face by face: cross product vanishes, and neither is the zero triple
+            cr = np.cross(G, Rf)
+            sc = (np.linalg.norm(G, axis=1) * np.linalg.norm(Rf, axis=1))
+            bad = (np.linalg.norm(cr, axis=1) > 1e-12 * np.maximum(sc, 1e-300)) | \
+                  ((np.linalg.norm(G, axis=1) == 0) != (np.linalg.norm(Rf, axis=1) == 0))
+            if G.size and bool(np.any(bad)):
+                self.flag("C03", "I4", "util/%s%s" % (fn, "/scale_coeffs" if "scale" in a else ""),
+                          {"bc": bent.name, "side": a["side"]})
 
     def op_bc_util_var(self, a, op, ctx):
         """A utility-method edit addressed through a variable (`v.BCs.left...`)."""
